@@ -76,6 +76,12 @@ def cache_sources(ctx, cache):
 def check(ctx):
     n_methods = family_rules(ctx, {"a": "C10-a", "b": "C10-b", "c": "C10-c", "d": "C10-d"})
     ctx.floor("C10", n_methods, 12, "methods of the reservoir family")
+    # C10-s: every level of the freshly allocated (np.empty) field is written on every path of the time loop - a level
+    # that is skipped keeps whatever memory the allocator hands back, i.e. the result depends on earlier calls
+    from .c01 import _step
+
+    for cls in ("IdealReservoir", "SinglePhaseReservoir"):
+        _step(ctx, cls)
 
 
 def family_rules(ctx, ids):
